@@ -7,6 +7,7 @@ CONSTANTS
   CCs = {"", "cdecl", "bogus"}
   ImplCCs = {"", "fastcall", "Cdecl"}
   Ptrs = {4, 8}
+  NoRecv = {FALSE, TRUE}
 INVARIANTS Replay
 CHECK_DEADLOCK FALSE
 VIEW View
